@@ -16,11 +16,11 @@ def run(ck, ctx):
         "exactly [previous, this, next]. Inner commas are typed COMMAT and the nesting counter returns to 0 (otherwise the following "
         "column separator would be mis-typed - which the fixed point would show). E5: the counter and the CHECK flag that disables "
         "bracket handling are reset before every statement on every route to the parser.")
-    ex = run_fragment(ck, ctx, "types", tier=ck.tier)
     S.t_reset_lexer(ck, ctx, only={"lt_open", "check", "lp_open", "columns_def", "after_columns", "last_token", "last_par", "is_table"})
     ck.floor("T-RESET.lexer", 6)
     S.t_dom(ck, ctx, "process_line", S.is_self_call("set_default_flags_in_lexer"), S.is_self_call("process_statement"),
             "Parser.process_line: flag reset dominates process_statement()",
             "the bracket counter and the CHECK flag must not survive into the next statement")
+    ex = run_fragment(ck, ctx, "types", tier=ck.tier)
     ck.assumptions += ["words are separated as pre_process_data intends (commas spaced, angle brackets not)",
                        "the exact text of the type string (spacing inside <...>) is not decided"]
